@@ -92,7 +92,7 @@ func c01Returns(fn *ast.FuncDecl) []string {
 			for _, r := range x.Rhs {
 				walkClosures(r, func(fl *ast.FuncLit) { walk(fl.Body, append(append([]string{}, guards...), "func")) })
 			}
-		case *ast.DeclStmt, *ast.IncDecStmt, *ast.BranchStmt, *ast.EmptyStmt:
+		case *ast.DeclStmt, *ast.IncDecStmt, *ast.BranchStmt, *ast.EmptyStmt, *ast.DeferStmt:
 		case *ast.LabeledStmt:
 			walk(x.Stmt, guards)
 		default:
@@ -279,6 +279,30 @@ func extractC01() *lean {
 		})
 	}
 	l.def("checkSignatureFlagIsPerCredential", "Bool", map[bool]string{true: "true", false: "false"}[perCred], perCred)
+
+	// trust.Config: the return sequences, and whether RemoveTrust drops EVERY entry equal to the issuer
+	// (a loop over the type's list that keeps the entries `!= issuer`), not just one occurrence
+	_, tr := parseFile("vcr/trust/trust.go")
+	seq("removeTrustReturns", tr, "RemoveTrust")
+	seq("addTrustReturns", tr, "AddTrust")
+	seq("isTrustedReturns", tr, "IsTrusted")
+	dropsAll := false
+	if fd := funcDecl(tr, "RemoveTrust"); fd != nil {
+		ast.Inspect(fd, func(n ast.Node) bool {
+			rs, ok := n.(*ast.RangeStmt)
+			if !ok || !strings.Contains(c01Expr(rs.X), "issuersPerType") {
+				return true
+			}
+			ast.Inspect(rs.Body, func(m ast.Node) bool {
+				if is, ok := m.(*ast.IfStmt); ok && strings.Contains(c01Expr(is.Cond), "!= issuer.String()") {
+					dropsAll = true
+				}
+				return true
+			})
+			return true
+		})
+	}
+	l.def("removeTrustDropsEveryOccurrence", "Bool", map[bool]string{true: "true", false: "false"}[dropsAll], dropsAll)
 
 	if v, ok := c01Const(ver, "maxSkew"); ok {
 		l.def("maxSkewMs", "Int", c01DurationMs(v), v)
